@@ -214,7 +214,19 @@ def _expression(expr):
 
     if isinstance(expr, blackbirdParser.ArrayIdxLabelContext):
         inner_expr = _expression(expr.expression())
-        return _VAR[expr.NAME().getText()].flatten()[inner_expr]
+        name = expr.NAME().getText()
+
+        if name not in _VAR:
+            token = expr.start
+            line = token.line
+            col = token.column
+            raise BlackbirdSyntaxError(
+                "Blackbird SyntaxError (line {}:{}): name '{}' is not defined".format(
+                    line, col, name
+                )
+            )
+
+        return _VAR[name].flatten()[inner_expr]
 
     if isinstance(expr, blackbirdParser.ParameterLabelContext):
         p = Symbol(expr.parameter().NAME().getText())
